@@ -179,6 +179,9 @@ def build(history: list[tuple[str, ...]], spacing: float, hset: int, fails: int,
     if hset == 1:
         handlers = [dict(id='c1', on='create', script=f + ['ok']), dict(id='u1', on='update', script=f + ['ok']),
                     dict(id='d1', on='delete', script=f + ['ok'])]
+    elif hset == 4:     # two resume handlers: under `asap` the resume cycle takes several rounds, each with a write of its own
+        handlers = [dict(id='c1', on='create', script=['ok']), dict(id='u1', on='update', script=['ok']),
+                    dict(id='r1', on='resume', script=['ok']), dict(id='r2', on='resume', script=f + ['ok']), dict(id='d1', on='delete', script=['ok'])]
     elif hset == 3:     # a resume handler that needs a retry takes part in whatever cycle the restart finds
         handlers = [dict(id='c1', on='create', script=['ok']), dict(id='u1', on='update', script=['ok']),
                     dict(id='r1', on='resume', script=f + ['ok']), dict(id='d1', on='delete', script=['ok'])]
@@ -200,6 +203,8 @@ def scenarios(tier: str) -> tuple[list[C03Scenario], list[C03Scenario], list[C03
                 hist.append(build(h, spacing, hset, fails, delays=False, early_user=False, time_dev=False))
             if any(a[0] in ('restart', 'killrestart', 'down-edit') for a in h):
                 hist.append(build(h, spacing, 3, 1, delays=False, early_user=False, time_dev=False))
+                if len(h) <= 2 or tier != 'quick':
+                    hist.append(build(h, spacing, 4, 0, delays=False, early_user=False, time_dev=False))
     crash = [build(h, 20.0, hset, 1, kills=True, delays=False, early_user=False, time_dev=False)
              for h in histories(2 if tier == 'quick' else 3) for hset in (1, 2, 3)]
     timing = [build(h, 4.0, hset, 1, grid=2.0) for h in histories(1 if tier == 'quick' else 2) for hset in (1, 2, 3)]
